@@ -2,9 +2,10 @@
 from reg._common import COMMON_ASSUME
 
 ENTRY = {
-    'lean_files': ['Tables/C06.lean', 'Props/C06.lean'],
-    'lemma_files': ['Lemmas/Classify.lean', 'Lemmas/Bridge.lean', 'Model/Basic.lean', 'Model/Curve.lean', 'Model/Classify.lean'],
+    'lean_files': ['Tables/C06.lean', 'Props/C06.lean', 'Props/C06WalkBook.lean', 'Props/C06Walk.lean'],
+    'lemma_files': ['Model/Walk.lean', 'Lemmas/Walk.lean', 'Lemmas/WalkBook.lean', 'Model/Triangle.lean', 'Model/Geometric.lean', 'Model/GeometricInst.lean', 'Model/Helpers.lean', 'Lemmas/Classify.lean', 'Lemmas/Bridge.lean', 'Model/Basic.lean', 'Model/Curve.lean', 'Model/Classify.lean'],
     'script': 'props/c06.py',
+    'scripts': ['props/c06.py', 'props/c06w.py'],
     'rule': '(a) every ordered pair of positively oriented lattice triangles on the 3x3 grid (76 triangles, 5 776 pairs, degree 1, '
             'both configurations, exhaustive in every tier) and on the 4x4 grid (516 triangles, 266 256 pairs: seeded sample in quick, '
             'exhaustive in thorough), the 3x3 pairs also presented exactly degree-elevated to 2 and 3 (coordinates scaled by the degree) '
@@ -20,17 +21,26 @@ ENTRY = {
             'made during the degree-1 lattice runs is recorded and replayed through the Lean model (discrete results identical), plus '
             'an exhaustive tie lattice of corner configurations for classify_intersection; non-trivial = bounding boxes overlap; '
             'distinct by hash of exact inputs',
-    'partial': ['the boundary walk (get_next*, basic_interior_combine, add_intersection bookkeeping, verify_duplicates, '
-                'no_intersections / locate_point, tangent_only_intersections) is NOT proved: correctness of the returned regions is '
-                'established by the exhaustive / sampled comparison with exact clipping only; proved (Props/C06.lean, any ordered '
-                'field): classification of transversal and near-tangent intersections incl. corner handling and the error branch, '
-                'handle_ends (closed form, preserves the point, normal form), classify_coincident, should_use, to_front, '
-                'ends_to_curve (segments, index < 6, error branch), verify_edge_segments => well-formed segments, the bounding-box '
-                'gate and its soundness on disjoint boxes; the known failures of the unchanged tree (touching collinear edges) are '
-                'enumerated in known/C06-*.txt'],
-    'trusted_base': ['modelled not verified: the decision functions of triangle_helpers.py / triangle_intersection.py listed above '
-                     '(Fortran twins in triangle_intersection.f90 are compared through the results of the compiled configuration only); '
-                     'trusted, not modelled: the boundary walk, curve-curve intersection (C02/C03), locate_point (C10), '
-                     'harness/clip.py (exact rational oracle)'],
+    'partial': ['the boundary walk is inside the model (Model/Walk.lean, Python and Fortran variants) and proved structurally (Props/C06Walk, '
+                'C06WalkBook; any ordered field, intersection lists of any length): get_next_* returns the nearest acceptable node further '
+                'along the same edge or the edge end; basic_interior_combine terminates inside max_edges or raises RuntimeError, every region '
+                'is a closed chain of (node, get_next node) pairs linked by to_front, every kept intersection is met by some region; dispatch '
+                'of tangent_only / combine_intersections by the set of classes incl. the error branches; add_intersection / check_unused / '
+                'verify_duplicates bookkeeping (a corner seen from two edge pairs is stored once; counts 0, 1, 3 accepted, 2 or >= 4 raise - '
+                'the known defect F-H is a decided instance); with verify=True every returned segment has 0 <= start < end <= 1 and '
+                'consecutive segments lie on different edges; Python and Fortran walks agree on complete walkable lists (f90_walk_regions_eq)',
+                'NOT proved: that the union of the returned regions IS the common region of the two triangles (area, membership) - this needs '
+                'the completeness of the edge-edge intersections (C03, partial) and a Jordan-curve style argument for curved regions; it is '
+                'established by the exhaustive / sampled comparison with exact clipping (straight) and certified area enclosures (curved)',
+                'classification theorems (Props/C06.lean): transversal and near-tangent intersections incl. corner handling and the error '
+                'branch, handle_ends, classify_coincident, should_use, to_front, ends_to_curve, verify_edge_segments, the bounding-box gate',
+                'the known failures of the unchanged tree (touching collinear edges) are enumerated in known/C06-*.txt'],
+    'trusted_base': ['modelled, tied by correspondence: the decision functions of triangle_helpers.py / triangle_intersection.py and the whole '
+                     'boundary walk + bookkeeping (props/c06w.py: every lattice pair of the 3x3 grid, samples of the 4x4 and 5x5 grids and '
+                     'dyadic triangles run through the complete generic_intersect model with the pipeline model as edge-edge primitive, '
+                     'bit-exact in R64 mode; in the pure configuration additionally every recorded triangle_intersections / '
+                     'combine_intersections / basic_interior_combine / verify_duplicates call); the compiled interior_combine is not exported '
+                     'and is tied end to end only',
+                     'trusted, not modelled: locate_point for curved containment (C10), harness/clip.py (exact rational oracle)'],
     'assumptions': COMMON_ASSUME,
 }
